@@ -94,7 +94,7 @@ Proof. exact und_test_incomplete. Qed.
 Theorem C11_lattice_cost : forall r n R0 itr D s0 res,
   is_latt r = true ->
   run_routine r n R0 itr D s0 = Done res ->
-  (is_und r = true -> (forall x y, R0 x y = R0 y x) /\ (forall x, R0 x x = 0)) ->
+  (is_und r = true -> forall x y, R0 x y = R0 y x) ->
   let Dm := match D with Some D' => D' | None => ring_dist n end in
   (is_und r = true -> forall x y, Dm x y = Dm y x) ->
   let c0 := cost n Dm (pre_matrix r n R0 (r_perm res)) in
@@ -126,7 +126,7 @@ Qed.
    every intermediate state *)
 Theorem C11_mask : forall n A B maxswap s0 res,
   run_partial_und n A B maxswap s0 = Done res ->
-  (forall x y, A x y = A y x) -> (forall x, A x x = 0) -> (forall x y, B x y = B y x) ->
+  (forall x y, A x y = A y x) -> (forall x y, B x y = B y x) ->
   MaskOK A B (r_out res) /\ Forall (fun ev => MaskOK A B (sR (snd ev))) (r_trace res).
 Proof. exact run_partial_mask. Qed.
 
